@@ -384,6 +384,55 @@ def _run(ctx, items):
         judge(ctx, g, c, d, r, res2.get(k))
 
 
+def concurrent_stage(ctx):
+    """normalize_beatgrid called from four threads at once under the race detector: each thread's answers must equal the
+    answers the same inputs get from a single thread (which the main stage judges against the exact reference)."""
+    ncase = 4 if ctx.tier == "quick" else 40
+    per = 250
+    cases = []
+    for k in range(ncase):
+        lists = []
+        for t in range(4):
+            lst = []
+            while len(lst) < per:
+                g, c = gen_grid(ctx.rng, t % 2 == 0)
+                if in_domain(g, c):
+                    lst.append({"grid": [[i, dbits(float(o))] for i, o in g], "count": c})
+            lists.append(lst)
+        flat = [it for lst in lists for it in lst]
+        cases.append({"id": "mt%d" % k, "no_tz": True, "_n": [len(x) for x in lists],
+                      "ops": [{"op": "normalize", "items": flat}, {"op": "mt_normalize", "rounds": 4, "lists": lists}]})
+
+    def on_result(res):
+        wit = {"concurrent": True, "threads": 4}
+        if res.crash:
+            ctx.count()
+            ctx.violation("concurrent-calls " + res.crash["kind"] + " at=" + res.crash["site"],
+                          "calling normalize_beatgrid from four threads at once: " + res.crash["kind"] + " in " + res.crash["site"] +
+                          " :: " + res.crash.get("stderr", "")[:600].replace("\n", " | "), dict(wit, crash=res.crash["kind"]))
+            return
+        e1, e2 = res.events[0], res.events[1]
+        if "exc" in e1 or "exc" in e2:
+            ctx.fail_harness("concurrent stage op failed")
+            return
+        ctx.bump("concurrent_cases")
+        single = e1["ret"]
+        pos = 0
+        for n, out in zip(res.case["_n"], e2["ret"]):
+            ctx.count(n)
+            ctx.bump("concurrent_calls_judged", n)
+            if out != single[pos:pos + n]:
+                j = next(i for i in range(n) if out[i] != single[pos + i])
+                ctx.violation("concurrent-calls wrong-answer", f"an answer given while other threads were calling normalize_beatgrid differs from the "
+                              f"single-threaded answer: {str(out[j])[:120]} vs {str(single[pos + j])[:120]}", wit)
+                return
+            pos += n
+
+    runner.run_cases(cases, cfg="tsan", on_result=on_result, stall_timeout=300)
+    if not ctx.extra.get("concurrent_cases") and not any(k.startswith("concurrent-calls") for k in ctx.viol):
+        ctx.fail_harness("the concurrent stage did not run")
+
+
 def run(ctx):
     n = 60000 if ctx.tier == "quick" else 1500000
     skipped = 0
@@ -408,6 +457,7 @@ def run(ctx):
         _run(ctx, items)
         done += len(items)
     ctx.extra["out_of_domain_skipped"] = skipped
+    concurrent_stage(ctx)
     ctx.assumptions += ["fractions.Fraction arithmetic on the exact values of the doubles is the reference",
                         "a marker exactly at offset 0 counts as 'at or before the start'; one exactly at the end as 'at or beyond the end'",
                         "inputs whose normalised indices leave +-2^29 are outside the domain"]
@@ -415,6 +465,9 @@ def run(ctx):
 
 def replay(ctx, doc):
     r = doc["replay"]
+    if r.get("concurrent"):
+        concurrent_stage(ctx)
+        return
     if "grid" in r:
         g = [(i, F(undbits(h))) for i, h in r["grid"]]
         _run(ctx, [(g, r["count"], r.get("class") == "dyadic" and is_dyadic(g))])
